@@ -68,4 +68,14 @@ theorem rd64_append_slot (d : Bytes) (p : Nat) : rd64 (d ++ leBytes 8 p) d.lengt
     · rfl
   rw [this, leVal_leBytes8]
 
+/-- storing an 8-byte value is a memcpy of its little-endian image -/
+theorem wr64_eq_wrBytes (d : Bytes) (off v : Nat) : wr64 d off v = wrBytes d off (leBytes 8 v) := by
+  apply List.ext_getElem?
+  intro i
+  rw [getElem?_wr64, getElem?_wrBytes, length_leBytes]
+  split
+  · rename_i h
+    rw [getElem?_leBytes, if_pos (by omega)]
+  · rfl
+
 end YaraModel.Arena
